@@ -304,14 +304,18 @@ def processBlocks (n : Node) (a : ActiveSeg) : Node :=
   else
     startNewSegment (retire { n with active := none } a.segnum .ok)
 
+/-- the active fetcher as it sees the node during this event: `get_num_segments()` is read at the
+top of every `_do_loop`; the call log is per event -/
+def viewOf (n : Node) (a : ActiveSeg) : Fetcher :=
+  { a.f with badSeg := n.haveUEB && n.numSegs ≤ a.segnum, out := [] }
+
 /-- run one event of the active fetcher and let the node react to a verdict -/
 def fetcherEv (n : Node) (g : Nat) (e : Ev) : Node :=
   match n.active with
   | none => n
   | some a =>
     if a.gen ≠ g then n else
-    let f0 := { a.f with badSeg := n.haveUEB && n.numSegs ≤ a.segnum, out := [] }
-    let f' := step f0 e
+    let f' := step (viewOf n a) e
     let n := { n with log := n.log ++ f'.out.map (fun o => (g, o)) }
     let a' := { a with f := f' }
     match a.f.verdict, f'.verdict with
